@@ -156,6 +156,20 @@ impl Value {
         orig_shape: &Shape,
         env: &Uiua,
     ) -> UiuaResult {
+        self.undo_deshape_impl(sub, orig_shape, env)?;
+        // The keys of a map made of the deshaped rows are not the keys of the reshaped rows
+        let row_count = self.row_count();
+        if (self.meta.map_keys.as_ref()).is_some_and(|keys| !keys.fits_row_count(row_count)) {
+            self.meta.take_map_keys();
+        }
+        Ok(())
+    }
+    fn undo_deshape_impl(
+        &mut self,
+        sub: Option<i32>,
+        orig_shape: &Shape,
+        env: &Uiua,
+    ) -> UiuaResult {
         if let Some(irank) = sub {
             if self.rank() == 0 {
                 if let Value::Box(arr) = self {
